@@ -97,14 +97,33 @@ theorem shape_getters_safe (ext : Ext)
       | condComputed c l =>
         simp [getterCompat] at hcompat
         simp only [] at hk
-        obtain ⟨vars0, hl⟩ := hk
+        obtain ⟨vars0, _, hl⟩ := hk
         exact ⟨hle, hend, hcompat.1, evalLen_elem hcompat.2 hl⟩
     | readArgsArray r gas =>
       simp only []
       cases k with
       | scalar sz' rd => simp [getterCompat] at hcompat
       | condScalar c sz' rd => simp [getterCompat] at hcompat
-      | condComputed c l => simp [getterCompat] at hcompat
+      | condComputed c0 l =>
+        cases l with
+        | mul c sz =>
+          cases sz with
+          | const k => simp [getterCompat] at hcompat
+          | compute r' xs =>
+            simp [getterCompat] at hcompat
+            obtain ⟨rfl, hmatch⟩ := hcompat
+            simp only [] at hk
+            obtain ⟨vars0, hagree, hl⟩ := hk
+            have hvals := gargVals_ok hfields hnd hall a _ b hsplit vars0 hagree gas xs (by simpa using hmatch)
+            refine ⟨hle, hend, _, hvals, ?_⟩
+            simp only [evalLen, evalSize] at hl
+            split at hl
+            · cases hl
+            · rename_i n hn; exact ⟨n, hn⟩
+        | one sz => simp [getterCompat] at hcompat
+        | remFloor k => simp [getterCompat] at hcompat
+        | rem => simp [getterCompat] at hcompat
+        | varLen vk c => simp [getterCompat] at hcompat
       | computed l =>
         cases l with
         | mul c sz =>
@@ -130,7 +149,25 @@ theorem shape_getters_safe (ext : Ext)
       cases k with
       | scalar sz' rd => simp [getterCompat] at hcompat
       | condScalar c sz' rd => simp [getterCompat] at hcompat
-      | condComputed c l => simp [getterCompat] at hcompat
+      | condComputed c0 l =>
+        cases l with
+        | one sz =>
+          cases sz with
+          | const k => simp [getterCompat] at hcompat
+          | compute r' xs =>
+            simp [getterCompat] at hcompat
+            obtain ⟨rfl, hmatch⟩ := hcompat
+            simp only [] at hk
+            obtain ⟨vars0, hagree, hl⟩ := hk
+            have hvals := gargVals_ok hfields hnd hall a _ b hsplit vars0 hagree gas xs (by simpa using hmatch)
+            refine ⟨hle, hend, _, hvals, ?_⟩
+            simp only [evalLen, evalSize] at hl
+            exact hrec _ _ _ hl
+        | mul c sz => simp [getterCompat] at hcompat
+        | remFloor k => simp [getterCompat] at hcompat
+        | rem => simp [getterCompat] at hcompat
+        | varLen vk c => simp [getterCompat] at hcompat
+
       | computed l =>
         cases l with
         | one sz =>
